@@ -454,9 +454,9 @@ theorem fe_uids_gone (o : Obj) : GoneNSP o.pid (Fe.uids (goodCfg r) o) := by
 def GoneOK (o : Obj) (nm : String) : Prop := ∃ m, Fe.method (goodCfg r) o nm = some m ∧ GoneNSP o.pid m
 
 /-- the queries `C03_gone_is_NSP` covers: every modelled public query except the documented
-    exemptions of `Spec.goneExempt` (pid, create_time, is_running) and parent() (answers None for the lowest pid) -/
+    exemptions of `Spec.goneExempt` (pid, create_time, is_running) and parent() / parents() (answer None / [] for the lowest pid) -/
 def goneCovered : List String :=
-  ["children", "ppid", "name", "exe", "cmdline", "status", "username", "cwd", "nice", "uids", "gids", "terminal", "num_fds", "io_counters", "ionice", "cpu_affinity", "cpu_num", "environ", "num_ctx_switches", "num_threads", "threads", "cpu_times", "cpu_percent", "memory_info", "memory_full_info", "memory_percent", "memory_maps", "open_files", "net_connections"]
+  ["children", "ppid", "name", "exe", "cmdline", "status", "username", "cwd", "nice", "uids", "gids", "terminal", "num_fds", "io_counters", "ionice", "cpu_affinity", "cpu_num", "environ", "num_ctx_switches", "num_threads", "threads", "cpu_times", "cpu_percent", "memory_info", "memory_full_info", "memory_percent", "memory_maps", "open_files", "net_connections", "children_recursive", "connections"]
 
 theorem gone_children (o : Obj) : GoneOK r o "children" := ⟨_, rfl, children_gone r o⟩
 theorem gone_ppid (o : Obj) : GoneOK r o "ppid" := ⟨_, rfl, bind_nsp _ (fe_ppid_gone r o)⟩
@@ -488,8 +488,15 @@ theorem gone_memory_maps (o : Obj) : GoneOK r o "memory_maps" := ⟨_, rfl, bind
 theorem gone_open_files (o : Obj) : GoneOK r o "open_files" := ⟨_, rfl, bind_nsp _ (openFiles_gone r o.pid)⟩
 theorem gone_net_connections (o : Obj) : GoneOK r o "net_connections" := ⟨_, rfl, bind_nsp _ (netConnections_gone r o.pid)⟩
 
+theorem gone_children_recursive (o : Obj) : GoneOK r o "children_recursive" :=
+  ⟨_, rfl, by
+    show GoneNSP o.pid (Fe.childrenRecFuel (goodCfg r) o none)
+    unfold Fe.childrenRecFuel
+    exact bind_nsp _ (raiseIfPidReused_gone r o)⟩
+theorem gone_connections (o : Obj) : GoneOK r o "connections" := ⟨_, rfl, bind_nsp _ (netConnections_gone r o.pid)⟩
+
 theorem gone_all (o : Obj) : ∀ nm ∈ goneCovered, GoneOK r o nm :=
-  show ∀ nm ∈ ["children", "ppid", "name", "exe", "cmdline", "status", "username", "cwd", "nice", "uids", "gids", "terminal", "num_fds", "io_counters", "ionice", "cpu_affinity", "cpu_num", "environ", "num_ctx_switches", "num_threads", "threads", "cpu_times", "cpu_percent", "memory_info", "memory_full_info", "memory_percent", "memory_maps", "open_files", "net_connections"], GoneOK r o nm from
+  show ∀ nm ∈ ["children", "ppid", "name", "exe", "cmdline", "status", "username", "cwd", "nice", "uids", "gids", "terminal", "num_fds", "io_counters", "ionice", "cpu_affinity", "cpu_num", "environ", "num_ctx_switches", "num_threads", "threads", "cpu_times", "cpu_percent", "memory_info", "memory_full_info", "memory_percent", "memory_maps", "open_files", "net_connections", "children_recursive", "connections"], GoneOK r o nm from
   List.forall_mem_cons.2 ⟨gone_children r o,
     List.forall_mem_cons.2 ⟨gone_ppid r o,
     List.forall_mem_cons.2 ⟨gone_name r o,
@@ -519,6 +526,8 @@ theorem gone_all (o : Obj) : ∀ nm ∈ goneCovered, GoneOK r o nm :=
     List.forall_mem_cons.2 ⟨gone_memory_maps r o,
     List.forall_mem_cons.2 ⟨gone_open_files r o,
     List.forall_mem_cons.2 ⟨gone_net_connections r o,
-    (fun _ h => nomatch h)⟩⟩⟩⟩⟩⟩⟩⟩⟩⟩⟩⟩⟩⟩⟩⟩⟩⟩⟩⟩⟩⟩⟩⟩⟩⟩⟩⟩⟩
+    List.forall_mem_cons.2 ⟨gone_children_recursive r o,
+    List.forall_mem_cons.2 ⟨gone_connections r o,
+    (fun _ h => nomatch h)⟩⟩⟩⟩⟩⟩⟩⟩⟩⟩⟩⟩⟩⟩⟩⟩⟩⟩⟩⟩⟩⟩⟩⟩⟩⟩⟩⟩⟩⟩⟩
 
 end Psutil.C03
